@@ -37,6 +37,8 @@ def main():
         with core.Lock():
             changed = regen.regenerate(mod.TRANSLATORS)
             res.notes.append({"regenerated": changed})
+            for key, msg in regen.FAILED:
+                res.broken.append({"decl": f"translator {key} (model regenerated from the source)", "msg": msg})
             ok, log = core.lake_build(["nvdriver"])
             if not ok:
                 raise core.Infra("nvdriver does not build:\n" + log[-3000:])
@@ -61,7 +63,18 @@ def main():
             else:
                 res.broken = core.failing_decls(log) or [{"decl": "?", "msg": log[-1500:]}]
                 res.discharged = []
-        mod.run(res, args.tier)
+        try:
+            mod.run(res, args.tier)
+        except core.Infra:
+            if not (res.broken or res.violations):
+                raise
+            res.notes.append({"run_aborted": "infrastructure error after a broken obligation"})
+        except Exception as exc:  # pylint: disable=broad-except
+            # the harness itself tripped over the code under check; with an obligation already broken that is part of the same
+            # finding, otherwise it is a fault of the machinery
+            if not (res.broken or res.violations):
+                raise core.Infra(f"check aborted: {type(exc).__name__}: {exc}") from exc
+            res.notes.append({"run_aborted": f"{type(exc).__name__}: {exc}"[:300]})
         # a broken obligation with no concrete failing input found by the search
         if res.broken and not res.violations:
             res.violation(
